@@ -1220,7 +1220,7 @@ func (ex *Exec) appendOp(c *ssa.CallCommon, args []Value) Value {
 			arr = ex.C.Copy(arr, ex.constInt(0), (*s.Base).(BArr).A, s.Off, s.Len)
 		}
 		write(loc, arr, s.Len)
-		newCap := ex.growCap(newLen)
+		newCap := ex.growCap(newLen, s.Cap)
 		return Slice{Base: loc, Byte: true, Off: ex.constInt(0), Len: newLen, Cap: newCap}
 	}
 	// Vec-backed
@@ -1265,10 +1265,12 @@ func (ex *Exec) appendOp(c *ssa.CallCommon, args []Value) Value {
 	return Slice{Vec: vec, Off: ex.constInt(0), Len: ex.constInt(sl + n), Cap: ex.constInt(nc)}
 }
 
-// growCap models the runtime's choice of capacity on reallocation: any value >= newLen.
-func (ex *Exec) growCap(newLen *term.T) *term.T {
+// growCap models the runtime's choice of capacity on reallocation: at least the new length and, as
+// Go's growslice does (doubling or 1.25x growth, then rounding up to an allocation size class),
+// at most 3*max(old capacity, new length)+1024.
+func (ex *Exec) growCap(newLen, oldCap *term.T) *term.T {
 	if newLen.IsConst() {
-		// deterministic, like the runtime for small sizes: round up to a size class-ish value
+		// deterministic for concrete sizes: the next power of two (>= 8)
 		n := newLen.SInt()
 		c := int64(8)
 		for c < n {
@@ -1278,7 +1280,9 @@ func (ex *Exec) growCap(newLen *term.T) *term.T {
 	}
 	v := ex.C.Var(64, "growcap")
 	ex.S.Declare(v)
-	ex.assertFact(ex.C.BAnd(ex.C.Sle(newLen, v), ex.C.Sle(v, ex.constInt(maxAlloc))))
+	m := ex.C.Ite(ex.C.Slt(oldCap, newLen), newLen, oldCap)
+	upper := ex.C.Add(ex.C.Add(ex.C.Bin(term.OShl, m, ex.constInt(1)), m), ex.constInt(1024))
+	ex.assertFact(ex.C.BAnd(ex.C.Sle(newLen, v), ex.C.BAnd(ex.C.Sle(v, upper), ex.C.Sle(v, ex.constInt(maxAlloc)))))
 	return v
 }
 
